@@ -627,12 +627,16 @@ func c11r4(c *core.Ctx) {
 		}
 		for i, l := range as.Lhs {
 			k := fieldKeyOf(m, l)
-			if (k != "column.data" && k != "entityColumn.data") || i >= len(as.Rhs) {
+			if k != "column.data" && k != "entityColumn.data" {
 				continue
 			}
-			s := m.ExprString(as.Rhs[i])
+			rhs := as.Rhs[0]
+			if i < len(as.Rhs) {
+				rhs = as.Rhs[i]
+			}
+			s := m.ExprString(rhs)
 			subject := adj.Name + ": " + m.ExprString(l)
-			if strings.HasPrefix(s, "reflect.New(reflect.ArrayOf(") && strings.HasSuffix(s, ".Elem()") && strings.Contains(s, "t.cap") {
+			if freshTypedArray(m, adj, rhs, 0) && strings.Contains(s, "t.cap") {
 				c.OK("C11/R4", subject, c.At(as.Pos()), "fresh zeroed typed array of the new capacity")
 			} else {
 				c.Violation("C11/R4", subject, c.At(as.Pos()), fmt.Sprintf("%s: new buffer is %s, expected a fresh reflect.New(reflect.ArrayOf(cap, type)) array", adj.Name, s))
